@@ -4,6 +4,7 @@
    inductive [lsteps]/[lreach] the theorems are stated with. *)
 From Coq Require Import ZArith QArith List.
 From ONL Require Import Tcp.Sink Tcp.Sender Tcp.SenderProofs Tcp.Loop Tcp.LoopProofs Tcp.LoopLive.
+From ONL Require Export Tcp.SenderExamples.
 Import ListNotations.
 Open Scope Z_scope.
 
@@ -33,18 +34,7 @@ Proof. intros H. eapply lsteps_reach. apply lstepsf_lsteps. exact H. Qed.
    first segment missing at first, reordering, a duplicate after a merge, a gap closed late ---- *)
 Definition segsW : list (Z * Z) := [(512, 512); (1024, 512); (0, 512); (512, 512); (2048, 512); (1536, 512)].
 
-(* ---- the sender alone: MSS 512, 8 segments, window 2 MSS, rtt_estimate 1/16 ----
-   wake (segments 0, 512 sent), new ACK 512, store hand-off, wake (1024, 1536 sent), two duplicates of ACK 512 *)
-Definition cS : config := mkcfg 512 4096 Reno.
-Definition sS0 : sender := init (1024 # 1) (65535 # 1) (1 # 16).
-Definition hS2 : list event := [EWake; EAck 512 0 (1 # 8) 0; EStoreCb; EWake; EAck 512 0 (1 # 8) 0; EAck 512 0 (1 # 8) 0].
-(* ... the third duplicate (fast retransmit of 512), the timer of 1024 expires (retransmission, RTO doubled),
-   a cumulative ACK 2048 (stops the timers of 512, 1024, 1536) *)
-Definition hS : list event := hS2 ++ [EAck 512 0 (1 # 8) 0; EExpire 1024; EAck 2048 1024 (1 # 4) 0].
-(* ... and an expiry of the timer of 512, which that ACK has stopped: cannot occur *)
-Definition hSbad : list event := hS ++ [EExpire 512].
-Definition sender_after (evs : list event) : sender :=
-  match run repaired cS sS0 evs with Ok s _ => s | Raise _ => sS0 end.
+(* the sender alone: cS, sS0, hS2, hS, hSbad, sender_after are in Tcp/SenderExamples.v (shared with C17) *)
 
 (* ---- the closed loop with losses: 8 segments of 512 bytes, window 4 MSS, one-way delay 1/4, rtt_estimate 1/2;
    data transmissions 1 and 6 (segment 512, twice) and ACK transmission 2 are dropped.
